@@ -823,6 +823,17 @@ class SymEval:
                 r = self.resolver(e, recv, m, args, kwargs, env)
                 if r is not NotImplemented:
                     return r
+            if isinstance(recv, Obj) and recv.cls and m.startswith("_") and not m.startswith("__") and getattr(self, "_mdepth", 0) < 3:
+                # a private helper method of the object's own class: interpret it (helper extraction is the commonest refactoring)
+                for _m, _q, cnode in self.repo.all_classes():
+                    if cnode.name == recv.cls:
+                        meth = self.repo.method(cnode, m)
+                        if meth is not None:
+                            self._mdepth = getattr(self, "_mdepth", 0) + 1
+                            try:
+                                return self.call(meth, args, kwargs, self_val=recv)
+                            finally:
+                                self._mdepth -= 1
             raise Undetermined(f"method {m} on {type(recv).__name__}")
         raise Undetermined("call form")
 
